@@ -80,3 +80,54 @@ def handle_cemi_frame_never_raises_and_routes_key_issues(h, frame, code):
         assert len(ghost("queue")) == 0 and len(ghost("mgmt")) == 0
         if code is CEMIMessageCode.L_DATA_IND and isinstance(frame.tpci, TDataGroup):
             assert len(ghost("keyissue")) == 1
+
+
+# ------------------------------------------------------------------ which addresses "have a key": the keyring
+
+from xknx.secure import data_secure as _data_secure_module  # noqa: E402
+
+
+_G1, _G2, _S1 = GroupAddress(0x0A03), GroupAddress(0), IndividualAddress(0x1105)
+
+
+class _Keyring:
+    """Keyring by contract: the two tables Data Secure is initialised from (parsing the file is not part of
+    this property)."""
+
+    def __init__(self, keys, senders):
+        self.keys, self.senders = keys, senders
+
+    def get_data_secure_group_keys(self, receiver=None):
+        return self.keys
+
+    def get_data_secure_senders(self):
+        return self.senders
+
+
+@lemma(
+    "C18",
+    family=[dict(n_keys=k, n_senders=s) for k in (0, 1, 2) for s in (0, 1)],
+    params=dict(h=Obj(CEMIHandler, xknx=XKNX, data_secure=None, _l_data_confirmation_event=Const(RecEvent())), start=Int(1, (1 << 48) - 1)),
+    stubs=[(_data_secure_module, "_initial_sequence_number", lambda: ghost("start")[0])],
+)
+def every_key_of_the_keyring_is_in_force(n_keys, n_senders, h, start):
+    """data_secure_init / DataSecure.init_from_keyring: Data Secure is switched off only for a keyring without
+    any group key; otherwise - whatever the sender table holds, an empty one included - the handler's
+    DataSecure uses exactly the keyring's key table, so every address with a key is treated as secured."""
+    ghost("start").append(start)
+    g1, g2 = _G1, _G2
+    keys = {}
+    if n_keys >= 1:
+        keys[g1] = bytes(16)
+    if n_keys == 2:
+        keys[g2] = bytes(range(16))
+    senders = {}
+    if n_senders:
+        senders[_S1] = 0
+    h.data_secure_init(_Keyring(keys, senders))
+    if n_keys == 0:
+        assert h.data_secure is None
+        return
+    assert h.data_secure is not None
+    assert h.data_secure._group_key_table is keys and h.data_secure._individual_address_table is senders
+    assert g1 in h.data_secure._group_key_table and len(h.data_secure._group_key_table) == n_keys
